@@ -126,7 +126,7 @@ func (fr *frame) callFunction(st *PState, qname string, fn *ssa.Function, sig *t
 		return
 	}
 	if isEffectFree(qname) {
-		k(st, fr.freshResults(st, sig, qname))
+		k(st, fr.pureResults(st, sig, qname, args))
 		return
 	}
 	if fn == nil {
@@ -507,4 +507,60 @@ func samePath(a, b []PathSel) bool {
 		}
 	}
 	return true
+}
+
+// pureResults models an effect-free library function as an uninterpreted function of its arguments
+// (same arguments, same results) when all arguments are value-like terms; otherwise fresh results.
+func (fr *frame) pureResults(st *PState, sig *types.Signature, qname string, args []Val) Val {
+	ex := fr.ex
+	var ats []T
+	var ptypes []types.Type
+	if sig.Recv() != nil {
+		ptypes = append(ptypes, sig.Recv().Type())
+	}
+	for i := 0; i < sig.Params().Len(); i++ {
+		ptypes = append(ptypes, sig.Params().At(i).Type())
+	}
+	if sig.Variadic() || len(ptypes) != len(args) || sig.Results().Len() == 0 {
+		return fr.freshResults(st, sig, qname)
+	}
+	var asorts []string
+	for i, a := range args {
+		t, ok := a.(T)
+		if !ok {
+			return fr.freshResults(st, sig, qname)
+		}
+		switch t.Sort {
+		case SBool, SBytes, SIntV, SDecV:
+		case SInt:
+			switch ptypes[i].Underlying().(type) {
+			case *types.Basic:
+			default:
+				if !isNamed(ptypes[i], "time", "Time") {
+					return fr.freshResults(st, sig, qname)
+				}
+			}
+		default:
+			return fr.freshResults(st, sig, qname)
+		}
+		ats = append(ats, t)
+		asorts = append(asorts, t.Sort)
+	}
+	mkRes := func(i int) T {
+		rt := sig.Results().At(i).Type()
+		rs := ex.Sorts.SortOf(rt)
+		name := fmt.Sprintf("uf_%s_%d", sanitize(ShortName(qname)), i)
+		ex.declFun(name, asorts, rs)
+		r := WithGo(st.Name("pure", App(rs, name, ats...)), rt)
+		st.TypeFacts(r, rt, 0)
+		return r
+	}
+	if sig.Results().Len() == 1 {
+		return mkRes(0)
+	}
+	tv := &TupleVal{}
+	for i := 0; i < sig.Results().Len(); i++ {
+		tv.Elems = append(tv.Elems, mkRes(i))
+	}
+	return tv
 }
